@@ -279,7 +279,7 @@ class LDMService:
         with self._lock:
             self.data_provider_its_aid.add(its_aid)
 
-    def update_provider_data(self, data_object_id: int, data_object: dict) -> None:
+    def update_provider_data(self, data_object_id: int, data_object: dict) -> int:
         """
         Method used to update provider data.
 
@@ -287,8 +287,14 @@ class LDMService:
         ----------
         data_object_id : int
         data_object : dict
+
+        Returns
+        -------
+        int
+            Identifier of the updated data object.
         """
         self.ldm_maintenance.update_provider_data(data_object_id, data_object)
+        return data_object_id
 
     def get_data_provider_its_aid(self) -> set[int]:
         """
